@@ -24,7 +24,7 @@ def run(ctx, res):
     f = L.f
     pre = L.pre_region
     restores = [b for b in L.restore_bbs if b in pre]
-    res.floor("MUST-PASS", "restore_stack_frame calls on the non-step exits", len(restores), 3)
+    res.floor("MUST-PASS", "restore_stack_frame calls on the non-step exits", len(restores), 1)
 
     # ---- MUST-PASS ---------------------------------------------------------------
     r = D.reach_from(f, [L.some_bb], avoid_blocks=[L.step_bb] + restores)
@@ -40,7 +40,7 @@ def run(ctx, res):
         res.bad("MUST-PASS", "eval::eval # exit-without-restore%s" % what,
                 "eval::eval can return after popping an expression, without stepping it and without "
                 "restore_stack_frame%s: the popped expression is lost on resume" % what,
-                f.loc(f.blocks[wh[0]]["stmts"][0]["span"]) if wh else f.loc())
+                f.loc(next((x.get("span") for x in f.blocks[wh[0]]["stmts"] if x.get("span")), None)) if wh else f.loc())
     else:
         res.ok("MUST-PASS", "eval::eval: no return reachable from the pop without the step or restore_stack_frame")
     for b in restores:
@@ -107,10 +107,16 @@ def run(ctx, res):
 
     # ---- FLAG-CONSUME ---------------------------------------------------------------
     loads = []
+    swap_clears = False
     for bi, d, t in EL.switches_described(f, pre):
         r0 = f.root_of(t["discr"])
         if r0[0] == "call" and (M.callee_name(r0[2]) or "").endswith("::load"):
             loads.append((bi, t))
+        elif r0[0] == "call" and (M.callee_name(r0[2]) or "").endswith("::swap") and \
+                any((M.op_const(a) or {}).get("v") is False for a in r0[2]["args"]):
+            # `flag.swap(false)` tests and clears in one step: equivalent to load + store(false) on the true edge
+            loads.append((bi, t))
+            swap_clears = True
     if len(loads) != 1:
         res.bad("FLAG-CONSUME", "eval::eval # flag-load", "expected exactly one test of the interrupt flag per step, found %d" % len(loads), f.loc())
     else:
@@ -121,7 +127,7 @@ def run(ctx, res):
         tre = D.edge_dominated(f, lb, tt)
         stores = [bi for bi in tre for _ in [0] if f.blocks[bi]["term"]["t"] == "call"
                   and (M.callee_name(f.blocks[bi]["term"]) or "").endswith("::store")]
-        ok_store = False
+        ok_store = swap_clears
         for sb in stores:
             st = f.blocks[sb]["term"]
             c = [M.op_const(a) for a in st["args"]]
